@@ -293,6 +293,10 @@ Definition neutral (x : obs) : bool :=
 Definition hrec (x : entry) : obs := OHandler (e_prog x) (e_time x) (e_time x) (e_elem x) None.
 Definition trec (x : entry) : obs := OTap (e_time x) (e_proc x) (NPost (e_prog x)) (e_elem x).
 
+(* the successor a repeating entry posts when it fires *)
+Definition succ_of (x : entry) (ddt : Q) (y : entry) : Prop :=
+  y = mk_entry (Qred (e_time x + ddt)) (e_id y) (e_proc x) (e_elem x) (e_prog x) (Some ddt).
+
 (* what user code (an action) can do to the core *)
 Inductive umove : core -> core -> Prop :=
 | um_emit c n q o x : neutral x = true -> umove (c, n, q, o) (c, n, q, x :: o)
@@ -325,6 +329,7 @@ Inductive kmove : core -> list entry -> core -> Prop :=
 | km_clock c n q o c' : kmove (c, n, q, o) [] (c', n, q, o)
 | km_posted c n q o h n2 q2 o2 : head q = Some h -> e_live h = true ->
     umoves (e_time h, n, remove_id (e_id h) q, hrec h :: o) (e_time h, n2, q2, o2) ->
+    (forall ddt, e_rep h = Some ddt -> 0 <= ddt -> exists y, succ_of h ddt y /\ In y q2) ->
     kmove (c, n, q, o) [h] (e_time h, n2, q2, trec h :: o2)
 | km_event c n q o k e m pi j n2 q2 o2 :
     umoves (c, n, q, OHandler k c c e (Some m) :: o) (c, n2, q2, o2) ->
@@ -442,6 +447,18 @@ Proof.
   - apply Qltb_false in E. cbn. apply umoves_one. apply (um_post _ _ _ _ _ _ _ _ _ E).
 Qed.
 
+Lemma fire_succ tb x s ddt : e_rep x = Some ddt -> 0 <= ddt -> clock s <= e_time x ->
+  exists y, succ_of x ddt y /\ In y (queue (fire tb x s)).
+Proof.
+  intros Hr Hd Hc. unfold fire. rewrite Hr.
+  set (s1 := emit (OHandler (e_prog x) (e_time x) (clock s) (e_elem x) None) s).
+  pose proof (core_clock _ _ (run_prog_umoves tb (e_proc x) (e_prog x) (e_time x) (e_elem x) s1)) as Hc2.
+  set (s2 := run_prog tb (e_proc x) (e_prog x) (e_time x) (e_elem x) s1) in *.
+  unfold post. assert (E : Qltb (Qred (e_time x + ddt)) (clock s2) = false).
+  { apply Qltb_false. rewrite Hc2, Qred_correct. subst s1. cbn [clock emit]. lra. }
+  rewrite E. cbn [queue]. eexists. split; [|left; reflexivity]. reflexivity.
+Qed.
+
 Lemma fire_stuck tb x s : stuck (fire tb x s) = stuck s.
 Proof.
   unfold fire. destruct (e_rep x) as [ddt|]; [|rewrite run_prog_stuck; reflexivity].
@@ -460,6 +477,12 @@ Proof.
   pose proof (core_clock _ _ H) as Hc.
   unfold core_of in *. cbn [clock nextid queue out emit] in *. rewrite Hc in *. subst s1. cbn [clock nextid queue out emit] in *.
   subst t. eapply km_event. exact H.
+Qed.
+
+Lemma fire_event_clock tb x t e s : clock (fire_event tb x t e s) = clock s.
+Proof.
+  destruct x as [[pi j] ev]. unfold fire_event. cbn [clock emit].
+  rewrite (core_clock _ _ (run_prog_umoves tb pi (ev_prog ev) t e _)). reflexivity.
 Qed.
 
 Lemma fire_event_stuck tb x t e s : stuck (fire_event tb x t e s) = stuck s.
@@ -508,6 +531,7 @@ Proof.
   unfold core_of in *. cbn [clock nextid queue out emit] in *.
   subst s1. cbn [clock nextid queue out set_clock set_queue] in *. rewrite Hc in *.
   apply (km_posted _ _ _ _ h _ _ _ Hh Hl H).
+  intros ddt Hr Hd. apply (fire_succ tb h _ ddt Hr Hd). cbn. lra.
 Qed.
 
 Lemma run_pendingL_kmoves tb fuel t n s : forall n' s' l,
